@@ -161,4 +161,14 @@ theorem lexLt_negTrans : ∀ (ds : List (Desc α)) (x y z : α),
 theorem lexLt_strictWeak (ds : List (Desc α)) : StrictWeak (lexLt ds) :=
   ⟨lexLt_irrefl ds, lexLt_trans ds, lexLt_negTrans ds⟩
 
+/-- descriptors lifted to tagged records compare the records -/
+theorem lexLt_liftDesc : ∀ (ds : List (Desc Rec)) (p q : Nat × Rec),
+    lexLt (ds.map liftDesc) p q = lexLt ds p.2 q.2
+  | [], _, _ => rfl
+  | d :: ds, p, q => by
+    simp [lexLt, lexLt_liftDesc ds p q, liftDesc, Desc.keyLt]
+
+theorem descLess_liftDesc (ds : List (Desc Rec)) : descLess (ds.map liftDesc) = liftLess (lexLt ds) := by
+  rw [descLess_eq_lexLt]; funext p q; exact lexLt_liftDesc ds p q
+
 end FpgoVerif.C19
